@@ -10,8 +10,8 @@
      with the allow_duplicate_subscription flag; the public port uses `true`);
    * receiving actors as in V1.
 
-   Every scheduler choice is a label.  `decl` is ghost bookkeeping (which
-   subscription ids have been used).  Definitions only; proofs in V2Proofs.v. *)
+   Every scheduler choice is a label.  `decl` is ghost bookkeeping (receiver and
+   converter of every subscription id used so far).  Definitions only; proofs in V2Proofs.v. *)
 From Coq Require Import List NArith Bool Arith.
 From RV Require Import OutPort.Spec.
 Import ListNotations.
@@ -43,7 +43,7 @@ Section V2.
     dp : dpc;
     subscribers : list entry;
     actors : N -> actor;
-    decl : N -> bool }.
+    decl : N -> option (N * C) }.   (* ghost: receiver and converter of every subscription made *)
 
   Inductive label :=
   | LPublish (m : N)
@@ -55,7 +55,7 @@ Section V2.
   | LHandle (a s : N)
   | LStop (a : N).
 
-  Definition init : state := mkSt [] [] DIdle [] (fun _ => actor0) (fun _ => false).
+  Definition init : state := mkSt [] [] DIdle [] (fun _ => actor0) (fun _ => None).
 
   Definition is_set (c : cmd) : bool := match c with SetSub _ _ _ => true | Data _ => false end.
 
@@ -106,9 +106,11 @@ Section V2.
     | LPublish m =>
         Some (mkSt (queue st ++ [Data m]) (batch st) (dp st) (subscribers st) (actors st) (decl st))
     | LSubscribe s a c =>
-        if decl st s then None
-        else Some (mkSt (queue st ++ [SetSub s a c]) (batch st) (dp st) (subscribers st)
-                        (actors st) (updf (decl st) s true))
+        match decl st s with
+        | Some _ => None
+        | None => Some (mkSt (queue st ++ [SetSub s a c]) (batch st) (dp st) (subscribers st)
+                             (actors st) (updf (decl st) s (Some (a, c))))
+        end
     | LTake n =>
         match dp st with
         | DIdle =>
@@ -295,12 +297,14 @@ Section V2.
 
   Definition absv (s a : N) (st : state) : core :=
     let x := actors st a in
-    if decl st s then
-      match backlog st s with
-      | Some b => mkCore AIdle b (tagged s (a_mbox x)) (tagged s (a_got x)) (a_alive x)
-      | None => mkCore ADone [] (tagged s (a_mbox x)) (tagged s (a_got x)) (a_alive x)
-      end
-    else mkCore ANone [] (tagged s (a_mbox x)) (tagged s (a_got x)) (a_alive x).
+    match decl st s with
+    | Some _ =>
+        match backlog st s with
+        | Some b => mkCore AIdle b (tagged s (a_mbox x)) (tagged s (a_got x)) (a_alive x)
+        | None => mkCore ADone [] (tagged s (a_mbox x)) (tagged s (a_got x)) (a_alive x)
+        end
+    | None => mkCore ANone [] (tagged s (a_mbox x)) (tagged s (a_got x)) (a_alive x)
+    end.
 End V2.
 
 Arguments LPublish {C}.
